@@ -11,6 +11,8 @@ Integrand families: f(p, x, c), integral(p, a, b, c) = int_a^b f dx from the ant
 import math
 import cmath
 
+import numpy as np
+
 
 def _cbrt(v):
     return math.copysign(abs(v) ** (1.0 / 3.0), v)
@@ -76,15 +78,33 @@ ROOTS = {
 }
 
 
+def _narrow(a, b):
+    """an interval so short that differences of the antiderivative cancel (their error is eps (|F(a)| + |F(b)|), i.e. eps |a| / |b - a| relative):
+    16-point Gauss-Legendre instead (exact to degree 31; for widths <= 0.05 the remainder is below 1e-30 relative)"""
+    return (not math.isinf(a)) and (not math.isinf(b)) and abs(b - a) <= 0.05 * max(1.0, abs(a), abs(b))
+
+
+_GL_X, _GL_W = np.polynomial.legendre.leggauss(16)
+
+
+def _simpson(g, a, b):
+    h, m = 0.5 * (b - a), 0.5 * (a + b)
+    return h * math.fsum(float(w_) * g(m + h * float(x_)) for x_, w_ in zip(_GL_X, _GL_W))
+
+
 def _poly_f(p, x, c):
     return sum(p[k] * x ** k for k in range(len(p)))
 
 
 def _poly_int(p, a, b, c):
+    if _narrow(a, b):
+        return _simpson(lambda x: _poly_f(p, x, c), a, b)
     return sum(p[k] * (b ** (k + 1) - a ** (k + 1)) / (k + 1) for k in range(len(p)))
 
 
 def _poly_dp(p, a, b, c):
+    if _narrow(a, b):
+        return [_simpson(lambda x, k=k: x ** k, a, b) for k in range(len(p))]
     return [(b ** (k + 1) - a ** (k + 1)) / (k + 1) for k in range(len(p))]
 
 
@@ -103,6 +123,8 @@ def _exp_f(p, x, c):
 
 
 def _exp_int(p, a, b, c):
+    if _narrow(a, b):
+        return _simpson(lambda x: _exp_f(p, x, c), a, b)
     r = p[0] * (_eb(p[1], a) - _eb(p[1], b)) / p[1]
     if len(p) > 2:
         r += p[2] * (b - a)
@@ -110,6 +132,8 @@ def _exp_int(p, a, b, c):
 
 
 def _exp_dp(p, a, b, c):
+    if _narrow(a, b):
+        return [_simpson(lambda x: math.exp(-p[1] * x), a, b), _simpson(lambda x: -p[0] * x * math.exp(-p[1] * x), a, b)] + ([b - a] if len(p) > 2 else [])
     e = _eb(p[1], a) - _eb(p[1], b)
     g = [e / p[1],
          p[0] * ((-_beb(p[1], a) + _beb(p[1], b)) / p[1] - e / p[1] ** 2)]
@@ -124,11 +148,15 @@ def _trig_f(p, x, c):
 
 
 def _trig_int(p, a, b, c):
+    if _narrow(a, b):
+        return _simpson(lambda x: _trig_f(p, x, c), a, b)
     w = c['w']
     return p[0] * (math.cos(p[1] * a) - math.cos(p[1] * b)) / p[1] + p[2] * (math.sin(w * b) - math.sin(w * a)) / w
 
 
 def _trig_dp(p, a, b, c):
+    if _narrow(a, b):
+        return [_simpson(lambda x: math.sin(p[1] * x), a, b), _simpson(lambda x: p[0] * x * math.cos(p[1] * x), a, b), _simpson(lambda x: math.cos(c['w'] * x), a, b)]
     w = c['w']
     cc = math.cos(p[1] * a) - math.cos(p[1] * b)
     return [cc / p[1],
